@@ -1,0 +1,156 @@
+//go:build verif
+
+package internal
+
+import (
+	"context"
+	"encoding/json"
+	"io"
+	"net"
+	"testing"
+	"time"
+
+	"github.com/alicebob/miniredis/v2"
+	"github.com/gotid/god/internal/verifdrv"
+	"github.com/gotid/god/lib/logx"
+	"github.com/gotid/god/lib/store/redis"
+	"github.com/gotid/god/rpc/internal/auth"
+	"github.com/gotid/god/rpc/internal/mock"
+	"github.com/gotid/god/rpc/internal/serverinterceptors"
+	"google.golang.org/grpc"
+	"google.golang.org/grpc/credentials/insecure"
+	"google.golang.org/grpc/health/grpc_health_v1"
+	"google.golang.org/grpc/metadata"
+	"google.golang.org/grpc/status"
+)
+
+// C04 through a REAL rpc server (internal.NewServer + Start): the built-in chain (tracing, crash, stat,
+// prometheus, BREAKER) followed by the authorize interceptors the way rpc.setupInterceptors adds
+// them; a real grpc client calls the unary method /mock.DepositService/Deposit and the streaming
+// method /grpc.health.v1.Health/Watch with app/token metadata.
+
+type verifC04SrvOp struct {
+	Op     string   `json:"op"` // set | del | call | burst
+	App    string   `json:"app"`
+	Token  string   `json:"token"`
+	Mode   string   `json:"mode"` // unary | stream
+	NoMd   bool     `json:"nomd"`
+	Apps   []string `json:"apps"`
+	Tokens []string `json:"tokens"`
+	N      int      `json:"n"` // burst: number of identical calls
+}
+
+type verifC04SrvCase struct {
+	Strict bool            `json:"strict"`
+	Ops    []verifC04SrvOp `json:"ops"`
+}
+
+func verifC04FreeAddr() (string, error) {
+	l, err := net.Listen("tcp", "127.0.0.1:0")
+	if err != nil {
+		return "", err
+	}
+	defer l.Close()
+	return l.Addr().String(), nil
+}
+
+func TestVerifDriverC04(t *testing.T) {
+	logx.Disable()
+	verifdrv.Run(t, func(raw json.RawMessage) any {
+		var c verifC04SrvCase
+		if err := json.Unmarshal(raw, &c); err != nil {
+			return map[string]any{"error": err.Error()}
+		}
+		mr, err := miniredis.Run()
+		if err != nil {
+			return map[string]any{"error": err.Error()}
+		}
+		defer mr.Close()
+		a, err := auth.NewAuthenticator(redis.New(mr.Addr()), "apps", c.Strict)
+		if err != nil {
+			return map[string]any{"error": err.Error()}
+		}
+		addr, err := verifC04FreeAddr()
+		if err != nil {
+			return map[string]any{"error": err.Error()}
+		}
+		srv := NewServer(addr, WithHealth(true))
+		// rpc/server.go setupInterceptors :127-129
+		srv.AddStreamInterceptors(serverinterceptors.StreamAuthorizeInterceptor(a))
+		srv.AddUnaryInterceptors(serverinterceptors.UnaryAuthorizeInterceptor(a))
+		var gs *grpc.Server
+		go srv.Start(func(s *grpc.Server) {
+			gs = s
+			mock.RegisterDepositServiceServer(s, &mock.DepositServer{})
+		})
+		var conn *grpc.ClientConn
+		for i := 0; i < 200; i++ {
+			ctx, cancel := context.WithTimeout(context.Background(), 100*time.Millisecond)
+			conn, err = grpc.DialContext(ctx, addr, grpc.WithTransportCredentials(insecure.NewCredentials()), grpc.WithBlock())
+			cancel()
+			if err == nil {
+				break
+			}
+		}
+		if err != nil {
+			return map[string]any{"error": "dial: " + err.Error()}
+		}
+		defer func() {
+			conn.Close()
+			if gs != nil {
+				gs.Stop()
+			}
+		}()
+		dep := mock.NewDepositServiceClient(conn)
+		hc := grpc_health_v1.NewHealthClient(conn)
+		call := func(op verifC04SrvOp) int {
+			ctx, cancel := context.WithTimeout(context.Background(), 5*time.Second)
+			defer cancel()
+			if !op.NoMd {
+				md := metadata.MD{}
+				if op.Apps != nil {
+					md["app"] = op.Apps
+				}
+				if op.Tokens != nil {
+					md["token"] = op.Tokens
+				}
+				ctx = metadata.NewOutgoingContext(ctx, md)
+			}
+			var err error
+			if op.Mode == "stream" {
+				var st grpc_health_v1.Health_WatchClient
+				if st, err = hc.Watch(ctx, &grpc_health_v1.HealthCheckRequest{}); err == nil {
+					_, err = st.Recv()
+					if err == io.EOF {
+						err = nil
+					}
+				}
+			} else {
+				_, err = dep.Deposit(ctx, &mock.DepositRequest{Amount: 0})
+			}
+			return int(status.Code(err))
+		}
+		type row struct {
+			Code  int         `json:"code"`
+			Burst map[int]int `json:"burst,omitempty"`
+		}
+		rows := []row{}
+		for _, op := range c.Ops {
+			switch op.Op {
+			case "set":
+				mr.HSet("apps", op.App, op.Token)
+			case "del":
+				mr.HDel("apps", op.App)
+			case "call":
+				rows = append(rows, row{Code: call(op)})
+			case "burst":
+				hist := map[int]int{}
+				for i := 0; i < op.N; i++ {
+					hist[call(op)]++
+				}
+				rows = append(rows, row{Code: -3, Burst: hist})
+			}
+		}
+		return map[string]any{"rows": rows}
+	})
+}
